@@ -258,9 +258,39 @@ for _s, _edd, _et in CONFIGS:
     for _lo in range(0, len(TYPE_CASES), 3):
         _hi = min(_lo + 2, len(TYPE_CASES) - 1)
         ob("C01", "P1.types.%s.k%d" % (_cfg_tag(_s, _edd, _et), _lo), {"kind": R(_lo, _hi), "x": PR}, pre="x != 47", T=400, tpath=60,
-           tier="quick" if (_edd and _et and _s != "numpydoc") else "thorough", funcs=FUNCS, assumes=[ADHOC_SHIMS_DOC],
+           tier="quick" if (_edd and _et and _s == "rest") else "thorough", funcs=FUNCS, assumes=[ADHOC_SHIMS_DOC],
            bound="two parameters + return entry; the second parameter's (and the return entry's) type is one of %s with/without default; description 'the '+X+' arg' for every printable X except '/'" % ", ".join(t for t, _ in TYPE_CASES[_lo:_hi + 1]),
            )(_p1_types(_s, _edd, _et, _lo, _hi))
+
+
+# P1.caselen: description characters whose case mappings change the LENGTH of the text (offsets computed on a folded copy drift) ----------------------
+CASELEN = tuple(c for c in range(0x110000) if len(chr(c).casefold()) != 1 or len(chr(c).upper()) != 1 or len(chr(c).lower()) != 1)
+
+
+def _p1_caselen(style, edd, et):
+    def body(k, dk):
+        c = CASELEN[0]
+        for j in range(1, len(CASELEN)):
+            if k == j:
+                c = CASELEN[j]
+        d, t = -5, "int"
+        if dk == 1:
+            d, t = True, "bool"
+        elif dk == 2:
+            d, t = "mid", "str"
+        elif dk == 3:
+            d, t = -0.75, "float"
+        return check(mk_ir([("a", {"typ": t, "doc": "Ma" + chr(c) + " value", "default": d}), ("b", {"typ": "int", "doc": "gr" + chr(c) + chr(c) + "er", "default": 12})]), style, edd, et)
+
+    return body
+
+
+for _s, _edd, _et in CONFIGS:
+    if _s == "numpydoc" and not _et:
+        continue
+    ob("C01", "P1.caselen.%s" % _cfg_tag(_s, _edd, _et), {"k": R(0, len(CASELEN) - 1), "dk": R(0, 3)}, T=1500, tpath=60, tier="quick" if _edd and _et else "thorough", funcs=FUNCS,
+       assumes=[ADHOC_SHIMS_DOC], bound="two defaulted parameters whose descriptions contain ANY of the %d code points whose casefold/upper/lower mapping has a different length "
+       "(sharp s, ligatures, dotted capital I, ...; str.casefold realises, so the solver enumerates the table), defaults -5 / True / 'mid' / -0.75 and 12" % len(CASELEN))(_p1_caselen(_s, _edd, _et))
 
 
 # F39: code-quoted expression defaults lose their code quotes in the prose (witness only) --------------------------------------------------
